@@ -75,14 +75,17 @@ def mergeHash : Nat → T → T → T
     if t.tag != HASH || v.tag != HASH then t
     else v.variants.foldl (fun acc kv =>
       let newV := keyValue kv
-      let existT := strictHashRef acc kv.key
-      if existT.tag == NIL then appendHashVariant acc kv
-      else if existT.tag == UNION then
-        -- the Go code appends to the stored union in place when the new value is not matched by it
-        (if Match.isMatchUnionType existT newV then acc
-         else appendHashVariant acc (T.makeKeyValue kv.key (appendVariant fuel existT newV)))
-      else if existT.tag == newV.tag then acc
-      else appendHashVariant acc (T.makeKeyValue kv.key (T.makeUnion [existT, newV]))) t
+      -- hashEntry: only a key that is absent is added as it is (a stored nil is a value like any other)
+      match acc.variants.find? (fun x => x.key == kv.key) with
+      | none => appendHashVariant acc kv
+      | some e =>
+        let existT := keyValue e
+        if existT.tag == UNION then
+          -- the Go code appends to the stored union in place when the new value is not matched by it
+          (if Match.isMatchUnionType existT newV then acc
+           else appendHashVariant acc (T.makeKeyValue kv.key (appendVariant fuel existT newV)))
+        else if existT.tag == newV.tag then acc
+        else appendHashVariant acc (T.makeKeyValue kv.key (makeUnifiedT fuel [existT, newV]))) t
 
 /-- UnifyVariants -/
 def unifyVariants : Nat → T → T
